@@ -10,6 +10,9 @@ sys.path.insert(0, HERE)
 os.environ.setdefault('PYTHONHASHSEED', '0')
 
 CHECKS = {
+    'C01': 'checks_sem.check_c01',
+    'C02': 'checks_sem.check_c02',
+    'C11': 'checks_sem.check_c11',
     'C04': 'checks_wire.check_c04',
     'C05': 'checks_wire.check_c05',
     'C06': 'checks_wire.check_c06',
